@@ -342,18 +342,25 @@ def run_proxy(case):
     return res
 
 
-def run_plain(case):
-    """generate on its default scheduler (the trampoline), no scheduler given to subscribe()"""
+def run_plain(case, immediate=False):
+    """generate on its default scheduler (the trampoline), no scheduler given to subscribe(); immediate=True: the
+    subscription is made with an ImmediateScheduler, whose schedule() runs the action inside the call"""
     def go():
+        from reactivex.scheduler import ImmediateScheduler
         cb = Callbacks(case)
-        holder = {"sched": None}
+        holder = {"sched": ImmediateScheduler() if immediate else None}
         obs = build(case, cb, holder)
         all_notes = []
         for _ in range(2 if case["twice"] else 1):
             notes = []
-            obs.subscribe(lambda v, n=notes: (cb.on_next(v), n.append((0, "N", enc(v)))),
-                          lambda e, n=notes: (cb.on_error(e), n.append((0, "E", enc_err(e)))),
-                          lambda n=notes: (cb.on_completed(), n.append((0, "C", None))))
+            try:
+                obs.subscribe(lambda v, n=notes: (cb.on_next(v), n.append((0, "N", enc(v)))),
+                              lambda e, n=notes: (cb.on_error(e), n.append((0, "E", enc_err(e)))),
+                              lambda n=notes: (cb.on_completed(), n.append((0, "C", None))),
+                              **({"scheduler": holder["sched"]} if immediate else {}))
+            except Exception as e:      # noqa: BLE001  (e.g. RecursionError of a run that never ends)
+                notes.append((0, "X", "escaped from subscribe(): " + type(e).__name__))
+                cb.log.append(("escaped", type(e).__name__))
             all_notes.append(notes)
         return {"log": cb.log, "notes": all_notes}
     return lib.with_timeout(5, go)
@@ -442,6 +449,14 @@ def check_case(case):
         if st == "timeout":
             return ("default scheduler: no return", "default scheduler: did not return within 5 s"), stats
         v = compare("default scheduler", case, out["log"], out["notes"], True, check_times=False)
+        if not v:
+            # the same finite run with the subscription made on an ImmediateScheduler (every schedule() call of
+            # the factory runs its action synchronously, i.e. recursively)
+            st, out = run_plain(case, immediate=True)
+            stats["immediate_scheduler_run"] = True
+            if st == "timeout":
+                return ("ImmediateScheduler: no return", "ImmediateScheduler: did not return within 5 s"), stats
+            v = compare("ImmediateScheduler", case, out["log"], out["notes"], True, check_times=False)
     else:
         one = dict(case, twice=False)
         st, out = run_testscheduler(one)
